@@ -52,6 +52,9 @@ class Board:
     def __init__(self, case, observers=(), build_cores=True):
         self.case = case
         self.observers = list(observers)
+        if build_cores and case.get('predecessor'):
+            # another processor, built from another configuration, lives and dies before this board's instances are constructed (machine.run_predecessor)
+            M.run_predecessor(case['predecessor'])
         self.cores = [Core(s) for s in case['cores']] if build_cores else []
         self.events = sorted(enumerate(case.get('events', [])), key=lambda p: (p[1]['tick'], p[0]))
         self.ev_pos = 0
